@@ -9,6 +9,7 @@ import HSModel.Proofs.ConcLemmas
 import HSModel.Proofs.AllEv
 import HSModel.Proofs.FaultMeta
 import HSModel.Proofs.RefsSafe
+import HSModel.Proofs.Disc
 namespace HS
 
 /-! ### static shape of a bracketed program -/
@@ -32,8 +33,85 @@ def Prog.Bracketed {α : Type} (c : LockClass) (i : Str) : Prog α → Prop
   | .ret _ => True
   | .op e k => e = .acquire c i ∧ Prog.Fin c i (k .unit)
 
+/-- the same shape, read as the lock discipline `Prog.Disc` reads programs: an
+    acquire continues only when granted, a release of a held identifier succeeds -/
+def Prog.FinU {α : Type} (c : LockClass) (i : Str) : Prog α → Prop
+  | .ret _ => False
+  | .op (.acquire c' i') k => (⟨c', i'⟩ : Lock) ≠ ⟨c, i⟩ ∧ Prog.FinU c i (k .unit)
+  | .op (.release c' i') k =>
+      ((⟨c', i'⟩ : Lock) = ⟨c, i⟩ ∧ (k .unit).Quiet) ∨ ((⟨c', i'⟩ : Lock) ≠ ⟨c, i⟩ ∧ Prog.FinU c i (k .unit))
+  | .op (.isFile _) k => ∀ r, Prog.FinU c i (k r)
+  | .op (.readRef _) k => ∀ r, Prog.FinU c i (k r)
+  | .op (.readOpen _) k => ∀ r, Prog.FinU c i (k r)
+  | .op (.readObj _) k => ∀ r, Prog.FinU c i (k r)
+  | .op (.readDoc _ _) k => ∀ r, Prog.FinU c i (k r)
+  | .op (.sizeIsZero _) k => ∀ r, Prog.FinU c i (k r)
+  | .op (.listDocs _) k => ∀ r, Prog.FinU c i (k r)
+  | .op (.openTmpWrite _) k => ∀ r, Prog.FinU c i (k r)
+  | .op (.eff _) k => ∀ r, Prog.FinU c i (k r)
+  | .op (.inProgress _) k => ∀ r, Prog.FinU c i (k r)
+  | .op (.isLocked _ _) k => ∀ r, Prog.FinU c i (k r)
+
+/-- a thread program under the lock discipline: returns at once, or acquires
+    `(c, i)` first thing and, once it has it, is `FinU` -/
+def Prog.BracketedU {α : Type} (c : LockClass) (i : Str) : Prog α → Prop
+  | .ret _ => True
+  | .op e k => e = .acquire c i ∧ Prog.FinU c i (k .unit)
+
 namespace Prog
 variable {α β : Type} {c : LockClass} {i : Str}
+
+theorem finU_of_fin (m : Prog α) (hm : m.Fin c i) : m.FinU c i := by
+  induction m with
+  | ret a => exact hm.elim
+  | op e k ih =>
+    rcases hm with ⟨he, hq⟩ | ⟨ha, hk⟩
+    · subst he
+      exact Or.inl ⟨rfl, hq _⟩
+    · cases e <;> simp only [Prog.FinU]
+      case acquire c' i' =>
+        refine ⟨?_, ih _ (hk _)⟩
+        intro hl; cases hl; exact ha.1 rfl
+      case release c' i' =>
+        refine Or.inr ⟨?_, ih _ (hk _)⟩
+        intro hl; cases hl; exact ha.2 rfl
+      all_goals exact fun r => ih r (hk r)
+
+theorem bracketedU_of_bracketed (m : Prog α) (hm : m.Bracketed c i) : m.BracketedU c i := by
+  cases m with
+  | ret a => trivial
+  | op e k => exact ⟨hm.1, finU_of_fin _ hm.2⟩
+
+theorem finU_bind_avoid (m : Prog α) (f : α → Prog β) (hm : m.AllEv (Avoid c i)) (hf : ∀ a, (f a).FinU c i) :
+    (Prog.bind m f).FinU c i := by
+  induction m with
+  | ret a => exact hf a
+  | op e k ih =>
+    cases e <;> simp only [Prog.bind, Prog.FinU]
+    case acquire c' i' =>
+      refine ⟨?_, ih _ (hm.2 _)⟩
+      intro hl; cases hl; exact hm.1.1 rfl
+    case release c' i' =>
+      refine Or.inr ⟨?_, ih _ (hm.2 _)⟩
+      intro hl; cases hl; exact hm.1.2 rfl
+    all_goals exact fun r => ih r (hm.2 r)
+
+theorem finU_bind_quiet (m : Prog α) (f : α → Prog β) (hm : m.FinU c i) (hf : ∀ a, (f a).Quiet) :
+    (Prog.bind m f).FinU c i := by
+  induction m with
+  | ret a => exact hm.elim
+  | op e k ih =>
+    cases e <;> simp only [Prog.bind, Prog.FinU] at hm ⊢
+    case acquire c' i' => exact ⟨hm.1, ih _ hm.2⟩
+    case release c' i' =>
+      rcases hm with ⟨h1, h2⟩ | ⟨h1, h2⟩
+      · left
+        refine ⟨h1, ?_⟩
+        cases hk : k .unit with
+        | ret a => exact hf a
+        | op e' k' => rw [hk] at h2; exact h2.elim
+      · exact Or.inr ⟨h1, ih _ h2⟩
+    all_goals exact fun r => ih r (hm r)
 
 theorem quiet_bind (m : Prog α) (f : α → Prog β) (hm : m.Quiet) (hf : ∀ a, (f a).Quiet) : (Prog.bind m f).Quiet := by
   cases m with
@@ -172,24 +250,62 @@ theorem step_prog_run (fuel : Nat) (t : TState) (w : World) :
     (t.step fuel w).1.prog.run (t.step fuel w).2 = t.prog.run w := by
   rw [← TState.rest_eq, ← TState.rest_eq]; exact step_rest fuel t w
 
-section
-variable {c : LockClass} {i : Str}
+/-- the identifiers a thread holds (by its own account) are in the world's lists -/
+def Held (h : List Lock) (w : World) : Prop := ∀ l ∈ h, l.id ∈ w.lk.get l.cls
 
-theorem fin_runToBoundary (fuel : Nat) (p : Prog (Except Exc Val)) (w : World) (hp : p.Fin c i) (hc : w.cnt c i = 1) :
-    (runToBoundary fuel p w).1.prog.Fin c i ∧ (runToBoundary fuel p w).2.cnt c i = 1 := by
+theorem held_of_lk_eq {h : List Lock} {w w' : World} (hw : Held h w) (e : w'.lk = w.lk) : Held h w' := by
+  intro l hl; rw [e]; exact hw l hl
+
+theorem notLock_of_ne (e : Ev) (h1 : ∀ c i, e ≠ .acquire c i) (h2 : ∀ c i, e ≠ .release c i) : NotLock e := by
+  cases e <;> first | trivial | exact (h1 _ _ rfl).elim | exact (h2 _ _ rfl).elim
+
+theorem respond_lk_notLock (w : World) (e : Ev) (h : NotLock e) : (respond w e).2.lk = w.lk := by
+  rcases respond_lk w e with h1 | ⟨c', i', he, _⟩ | ⟨c', i', he, _⟩
+  · exact h1
+  · subst he; exact h.elim
+  · subst he; exact h.elim
+
+theorem avoid_of_notLock {c : LockClass} {i : Str} {e : Ev} (h : NotLock e) : Avoid c i e := by
+  constructor <;> (intro he; subst he; exact h.elim)
+
+section
+variable {c : LockClass} {i : Str} {post : List Lock → Except Exc Val → Prop}
+
+/-- for a primitive that is not a lock operation both static readings continue
+    with every answer -/
+theorem finU_notLock {e : Ev} {k : Resp → Prog (Except Exc Val)} (hn : NotLock e)
+    (h : (Prog.op e k).FinU c i) (r : Resp) : (k r).FinU c i := by
+  cases e <;> first | exact hn.elim | exact h r
+
+theorem disc_notLock {e : Ev} {k : Resp → Prog (Except Exc Val)} {hl : List Lock} (hn : NotLock e)
+    (h : (Prog.op e k).Disc post hl) (r : Resp) : (k r).Disc post hl := by
+  cases e <;> first | exact hn.elim | exact h r
+
+theorem boundary_of_lock (e : Ev) (h : ¬ NotLock e) : e.boundary = true := by
+  cases e <;> first | rfl | exact (h trivial).elim
+
+/-- walking to the next scheduling point passes no lock operation: the thread is
+    still inside, holds what it held -/
+theorem finU_runToBoundary (fuel : Nat) (p : Prog (Except Exc Val)) (w : World) (hl : List Lock)
+    (hp : p.FinU c i) (hd : p.Disc post hl) (hh : Held hl w) (hc : w.cnt c i = 1) :
+    (runToBoundary fuel p w).1.prog.FinU c i ∧ (runToBoundary fuel p w).1.prog.Disc post hl ∧
+      Held hl (runToBoundary fuel p w).2 ∧ (runToBoundary fuel p w).2.cnt c i = 1 := by
   induction fuel generalizing p w with
-  | zero => exact ⟨hp, hc⟩
+  | zero => exact ⟨hp, hd, hh, hc⟩
   | succ n ih =>
     cases p with
     | ret r => exact hp.elim
     | op e k =>
       simp only [runToBoundary]
       split
-      · exact ⟨hp, hc⟩
+      · exact ⟨hp, hd, hh, hc⟩
       · rename_i hb
-        rcases hp with ⟨he, _⟩ | ⟨ha, hk⟩
-        · subst he; simp [Ev.boundary] at hb
-        · exact ih _ _ (hk _) (by rw [respond_cnt_avoid w c i e ha]; exact hc)
+        have hn : NotLock e := by
+          apply Classical.byContradiction
+          intro hne; exact hb (boundary_of_lock e hne)
+        exact ih _ _ (finU_notLock hn hp _) (disc_notLock hn hd _)
+          (held_of_lk_eq hh (respond_lk_notLock w e hn))
+          (by rw [respond_cnt_avoid w c i e (avoid_of_notLock hn)]; exact hc)
 
 theorem quiet_runToBoundary (fuel : Nat) (p : Prog (Except Exc Val)) (w : World) (hp : p.Quiet) :
     (runToBoundary fuel p w).1.prog = p ∧ (runToBoundary fuel p w).2 = w := by
@@ -197,27 +313,102 @@ theorem quiet_runToBoundary (fuel : Nat) (p : Prog (Except Exc Val)) (w : World)
   | op e k => exact hp.elim
   | ret r => cases fuel <;> exact ⟨rfl, rfl⟩
 
-/-- a thread inside its bracket: after a step it is still inside, or it has
-    released the identifier and has nothing left to do -/
-theorem fin_step (fuel : Nat) (t : TState) (w : World) (ht : t.prog.Fin c i) (hc : w.cnt c i = 1) :
-    ((t.step fuel w).1.prog.Fin c i ∧ (t.step fuel w).2.cnt c i = 1) ∨
+theorem held_acquire {hl : List Lock} {w w1 : World} {c' : LockClass} {i' : Str} (hh : Held hl w)
+    (e : w1.lk = w.lk.put c' (w.lk.get c' ++ [i'])) : Held (hl ++ [⟨c', i'⟩]) w1 := by
+  intro l hl'
+  rw [e]
+  rcases List.mem_append.mp hl' with h1 | h1
+  · by_cases hc : c' = l.cls
+    · subst hc; rw [Locks.get_put_same]; exact List.mem_append_left _ (hh l h1)
+    · rw [Locks.get_put_ne _ _ hc]; exact hh l h1
+  · simp only [List.mem_singleton] at h1; subst h1
+    simp only
+    rw [Locks.get_put_same]; simp
+
+theorem held_release {hl : List Lock} {w w1 : World} {c' : LockClass} {i' : Str} (hh : Held hl w) (hn : hl.Nodup)
+    (e : w1.lk = w.lk.put c' ((w.lk.get c').erase i')) : Held (hl.erase ⟨c', i'⟩) w1 := by
+  intro l hl'
+  rw [e]
+  have hmem : l ∈ hl := List.mem_of_mem_erase hl'
+  have hne : l ≠ ⟨c', i'⟩ := by
+    intro e'; subst e'
+    exact (List.Nodup.mem_erase_iff hn).mp hl' |>.1 rfl
+  by_cases hc : c' = l.cls
+  · subst hc
+    rw [Locks.get_put_same]
+    have hi : l.id ≠ i' := by
+      intro e'; apply hne; cases l; simp only at e'; subst e'; rfl
+    exact (List.mem_erase_of_ne hi).mpr (hh l hmem)
+  · rw [Locks.get_put_ne _ _ hc]; exact hh l hmem
+
+/-- a thread inside its bracket takes an enabled step: it is still inside, or it
+    has released the identifier and has nothing left to do -/
+theorem finU_step (fuel : Nat) (t : TState) (w : World) (hl : List Lock) (ht : t.prog.FinU c i)
+    (hd : t.prog.Disc post hl) (hh : Held hl w) (hn : hl.Nodup) (hc : w.cnt c i = 1) (hen : t.enabled w = true) :
+    (∃ hl', (t.step fuel w).1.prog.FinU c i ∧ (t.step fuel w).1.prog.Disc post hl' ∧ Held hl' (t.step fuel w).2 ∧
+        hl'.Nodup ∧ (t.step fuel w).2.cnt c i = 1) ∨
     ((t.step fuel w).1.prog.Quiet ∧ (t.step fuel w).2.cnt c i = 0) := by
   cases t with
-  | fresh p => exact Or.inl (fin_runToBoundary fuel p w ht hc)
+  | fresh p =>
+    obtain ⟨h1, h2, h3, h4⟩ := finU_runToBoundary fuel p w hl ht hd hh hc
+    exact Or.inl ⟨hl, h1, h2, h3, hn, h4⟩
   | finished r => exact ht.elim
   | «at» e k =>
-    show ((runToBoundary fuel (k (respond w e).1) (respond w e).2).1.prog.Fin c i ∧ _) ∨ _
-    rcases ht with ⟨he, hq⟩ | ⟨ha, hk⟩
-    · subst he
-      right
-      obtain ⟨_, h0⟩ := respond_release_cnt w c i hc
-      obtain ⟨h1, h2⟩ := quiet_runToBoundary fuel _ (respond w (.release c i)).2 (hq (respond w (.release c i)).1)
-      show (runToBoundary fuel (k (respond w (.release c i)).1) (respond w (.release c i)).2).1.prog.Quiet ∧
-        (runToBoundary fuel (k (respond w (.release c i)).1) (respond w (.release c i)).2).2.cnt c i = 0
-      rw [h1, h2]
-      exact ⟨hq _, h0⟩
+    have hstep : (TState.at e k).step fuel w = runToBoundary fuel (k (respond w e).1) (respond w e).2 := rfl
+    rw [hstep]
+    by_cases hnl : NotLock e
     · left
-      exact fin_runToBoundary fuel _ _ (hk _) (by rw [respond_cnt_avoid w c i e ha]; exact hc)
+      obtain ⟨h1, h2, h3, h4⟩ := finU_runToBoundary fuel (k (respond w e).1) (respond w e).2 hl
+        (finU_notLock hnl ht _) (disc_notLock hnl hd _) (held_of_lk_eq hh (respond_lk_notLock w e hnl))
+        (by rw [respond_cnt_avoid w c i e (avoid_of_notLock hnl)]; exact hc)
+      exact ⟨hl, h1, h2, h3, hn, h4⟩
+    · cases e with
+      | acquire c' i' =>
+        simp only [TState.prog, Prog.FinU, Prog.Disc] at ht hd
+        have hfree : i' ∉ w.lk.get c' := by
+          simpa [TState.enabled] using hen
+        obtain ⟨w1, hr, _, hlk⟩ := respond_acquire_free w c' i' hfree
+        have hav : Avoid c i (.acquire c' i') := by
+          constructor
+          · intro e'; cases e'; exact ht.1 rfl
+          · intro e'; cases e'
+        have hc1 : w1.cnt c i = 1 := by
+          have := respond_cnt_avoid w c i _ hav; rw [hr] at this; rw [this]; exact hc
+        have hnot : (⟨c', i'⟩ : Lock) ∉ hl := fun hm => hfree (hh _ hm)
+        left
+        rw [hr]
+        obtain ⟨h1, h2, h3, h4⟩ := finU_runToBoundary fuel (k .unit) w1 (hl ++ [⟨c', i'⟩]) ht.2 hd.2
+          (held_acquire hh hlk) hc1
+        refine ⟨hl ++ [⟨c', i'⟩], h1, h2, h3, ?_, h4⟩
+        rw [List.nodup_append]
+        refine ⟨hn, by simp, ?_⟩
+        intro a ha b hb
+        simp only [List.mem_singleton] at hb; subst hb
+        intro e'; subst e'; exact hnot ha
+      | release c' i' =>
+        simp only [TState.prog, Prog.FinU, Prog.Disc] at ht hd
+        rcases ht with ⟨he, hq⟩ | ⟨hne, hf⟩
+        · right
+          cases he
+          obtain ⟨hr1, h0⟩ := respond_release_cnt w c i hc
+          rw [show (respond w (.release c i)) = ((respond w (.release c i)).1, (respond w (.release c i)).2) from rfl, hr1]
+          obtain ⟨h1, h2⟩ := quiet_runToBoundary fuel (k .unit) (respond w (.release c i)).2 hq
+          rw [h1, h2]
+          exact ⟨hq, h0⟩
+        · left
+          have hin : i' ∈ w.lk.get c' := hh _ hd.1
+          obtain ⟨w1, hr, _, hlk⟩ := respond_release_held w c' i' hin
+          have hav : Avoid c i (.release c' i') := by
+            constructor
+            · intro e'; cases e'
+            · intro e'; cases e'; exact hne rfl
+          have hc1 : w1.cnt c i = 1 := by
+            have := respond_cnt_avoid w c i _ hav; rw [hr] at this; rw [this]; exact hc
+          rw [hr]
+          obtain ⟨h1, h2, h3, h4⟩ := finU_runToBoundary fuel (k .unit) w1 (hl.erase ⟨c', i'⟩) hf hd.2
+            (held_release hh hn hlk) hc1
+          exact ⟨hl.erase ⟨c', i'⟩, h1, h2, h3, hn.erase _, h4⟩
+      | _ => exact (hnl trivial).elim
 
 /-- a thread that has not started, or stands before its acquire without trying it -/
 theorem fresh_acquire_step (fuel : Nat) (k : Resp → Prog (Except Exc Val)) (w : World) :
@@ -226,14 +417,22 @@ theorem fresh_acquire_step (fuel : Nat) (k : Resp → Prog (Except Exc Val)) (w 
   cases fuel <;> exact ⟨rfl, rfl⟩
 
 /-- passing the acquire -/
-theorem at_acquire_step (fuel : Nat) (k : Resp → Prog (Except Exc Val)) (w : World) (hk : (k .unit).Fin c i)
-    (hc : w.cnt c i = 0) :
-    ((TState.at (.acquire c i) k).step fuel w).1.prog.Fin c i ∧ ((TState.at (.acquire c i) k).step fuel w).2.cnt c i = 1 := by
-  obtain ⟨h1, h2⟩ := respond_acquire_cnt w c i hc
-  show (runToBoundary fuel (k (respond w (.acquire c i)).1) (respond w (.acquire c i)).2).1.prog.Fin c i ∧
-    (runToBoundary fuel (k (respond w (.acquire c i)).1) (respond w (.acquire c i)).2).2.cnt c i = 1
-  rw [h1]
-  exact fin_runToBoundary fuel _ _ hk h2
+theorem at_acquire_step (fuel : Nat) (k : Resp → Prog (Except Exc Val)) (w : World) (hk : (k .unit).FinU c i)
+    (hd : (k .unit).Disc post [⟨c, i⟩]) (hc : w.cnt c i = 0) :
+    ((TState.at (.acquire c i) k).step fuel w).1.prog.FinU c i ∧
+    ((TState.at (.acquire c i) k).step fuel w).1.prog.Disc post [⟨c, i⟩] ∧
+    Held [⟨c, i⟩] ((TState.at (.acquire c i) k).step fuel w).2 ∧
+    ((TState.at (.acquire c i) k).step fuel w).2.cnt c i = 1 := by
+  have hfree : i ∉ w.lk.get c := List.count_eq_zero.mp hc
+  obtain ⟨w1, hr, _, hlk⟩ := respond_acquire_free w c i hfree
+  obtain ⟨_, h2⟩ := respond_acquire_cnt w c i hc
+  have hstep : (TState.at (.acquire c i) k).step fuel w = runToBoundary fuel (k (respond w (.acquire c i)).1) (respond w (.acquire c i)).2 := rfl
+  rw [hstep]
+  rw [hr] at h2 ⊢
+  have hh : Held [⟨c, i⟩] w1 := by
+    have := held_acquire (hl := []) (w := w) (w1 := w1) (c' := c) (i' := i) (by intro l hl; cases hl) hlk
+    simpa using this
+  exact finU_runToBoundary fuel (k .unit) w1 [⟨c, i⟩] hk hd hh h2
 
 theorem quiet_step (fuel : Nat) (t : TState) (w : World) (ht : t.prog.Quiet) :
     (t.step fuel w).1.prog = t.prog ∧ (t.step fuel w).2 = w := by
@@ -263,11 +462,12 @@ theorem seqRun_snoc (progs : List (Prog (Except Exc Val))) (order : List Nat) (j
   simp [seqRun, List.foldl_append]
 
 section
-variable (c : LockClass) (i : Str) (progs : List (Prog (Except Exc Val))) (w0 : World)
+variable (c : LockClass) (i : Str) (post : List Lock → Except Exc Val → Prop)
+  (progs : List (Prog (Except Exc Val))) (w0 : World)
 
 /-- has not passed its acquire -/
 def Waiting (t : TState) (p : Prog (Except Exc Val)) : Prop :=
-  t.prog = p ∧ ∃ k, p = .op (.acquire c i) k ∧ (k .unit).Fin c i
+  t.prog = p ∧ ∃ k, p = .op (.acquire c i) k ∧ (k .unit).FinU c i ∧ (k .unit).Disc post [⟨c, i⟩]
 
 /-- `done`: the threads that have nothing left to do, in the order in which they got there;
     `cur`: the thread inside its bracket, if any -/
@@ -276,14 +476,14 @@ structure SInv (cf : Conf) (done : List Nat) (cur : Option Nat) : Prop where
   nodup : done.Nodup
   dlt : ∀ j ∈ done, j < progs.length
   dret : ∀ j ∈ done, ∀ t, cf.ts[j]? = some t → ∃ v, t.prog = .ret v ∧ (j, v) ∈ (seqRun progs done w0).2
-  wait : ∀ j t p, j ∉ done → some j ≠ cur → cf.ts[j]? = some t → progs[j]? = some p → Waiting c i t p
+  wait : ∀ j t p, j ∉ done → some j ≠ cur → cf.ts[j]? = some t → progs[j]? = some p → Waiting c i post t p
   curNone : cur = none → cf.w.cnt c i = 0 ∧ cf.w = (seqRun progs done w0).1
-  curSome : ∀ a, cur = some a → a ∉ done ∧ cf.w.cnt c i = 1 ∧ ∃ t p, cf.ts[a]? = some t ∧ progs[a]? = some p ∧
-    t.prog.Fin c i ∧ t.prog.run cf.w = p.run (seqRun progs done w0).1
+  curSome : ∀ a, cur = some a → a ∉ done ∧ cf.w.cnt c i = 1 ∧ ∃ t p hl, cf.ts[a]? = some t ∧ progs[a]? = some p ∧
+    t.prog.FinU c i ∧ t.prog.Disc post hl ∧ Held hl cf.w ∧ hl.Nodup ∧ t.prog.run cf.w = p.run (seqRun progs done w0).1
 
-theorem sinv_step {cf : Conf} {done : List Nat} {cur : Option Nat} (h : SInv c i progs w0 cf done cur)
+theorem sinv_step {cf : Conf} {done : List Nat} {cur : Option Nat} (h : SInv c i post progs w0 cf done cur)
     (fuel j : Nat) (t : TState) (hj : cf.ts[j]? = some t) (hen : t.enabled cf.w = true) :
-    ∃ done' cur', SInv c i progs w0 { w := (t.step fuel cf.w).2, ts := cf.ts.set j (t.step fuel cf.w).1 } done' cur' := by
+    ∃ done' cur', SInv c i post progs w0 { w := (t.step fuel cf.w).2, ts := cf.ts.set j (t.step fuel cf.w).1 } done' cur' := by
   have hjlt : j < cf.ts.length := by
     rcases Nat.lt_or_ge j cf.ts.length with h1 | h1
     · exact h1
@@ -310,16 +510,17 @@ theorem sinv_step {cf : Conf} {done : List Nat} {cur : Option Nat} (h : SInv c i
       rw [hset_ne j' e] at ht'; exact h.wait j' t' p' hj' hc' ht' hp'
     · intro hc; simp only [h2]; exact h.curNone hc
     · intro a ha
-      obtain ⟨h3, h4, t', p', h5, h6, h7, h8⟩ := h.curSome a ha
+      obtain ⟨h3, h4, t', p', hl, h5, h6, h7, h7d, h7h, h7n, h8⟩ := h.curSome a ha
       have e : a ≠ j := fun e => h3 (e ▸ hd)
-      refine ⟨h3, by simp only [h2]; exact h4, t', p', by rw [hset_ne a e]; exact h5, h6, h7, by simp only [h2]; exact h8⟩
+      refine ⟨h3, by simp only [h2]; exact h4, t', p', hl, by rw [hset_ne a e]; exact h5, h6, h7, h7d,
+        by simp only [h2]; exact h7h, h7n, by simp only [h2]; exact h8⟩
   · by_cases hc : some j = cur
     · -- the thread inside its bracket moves
-      obtain ⟨h3, h4, t', p', h5, h6, h7, h8⟩ := h.curSome j hc.symm
+      obtain ⟨h3, h4, t', p', hl, h5, h6, h7, h7d, h7h, h7n, h8⟩ := h.curSome j hc.symm
       rw [hj] at h5; cases h5
       rw [hp] at h6; cases h6
       have hrun := step_prog_run fuel t cf.w
-      rcases fin_step fuel t cf.w h7 h4 with ⟨hf, hc1⟩ | ⟨hq, hc0⟩
+      rcases finU_step fuel t cf.w hl h7 h7d h7h h7n h4 hen with ⟨hl', hf, hfd, hfh, hfn, hc1⟩ | ⟨hq, hc0⟩
       · refine ⟨done, cur, ⟨by simpa using h.len, h.nodup, h.dlt, ?_, ?_, ?_, ?_⟩⟩
         · intro j' hj' t' ht'
           have e : j' ≠ j := fun e => hd (e ▸ hj')
@@ -331,7 +532,7 @@ theorem sinv_step {cf : Conf} {done : List Nat} {cur : Option Nat} (h : SInv c i
         · intro a ha
           have e : a = j := by rw [← hc] at ha; cases ha; rfl
           subst e
-          exact ⟨h3, hc1, _, p, hset_self, hp, hf, by rw [hrun]; exact h8⟩
+          exact ⟨h3, hc1, _, p, hl', hset_self, hp, hf, hfd, hfh, hfn, by rw [hrun]; exact h8⟩
       · -- it has released the identifier and returned
         obtain ⟨v, hv⟩ : ∃ v, (t.step fuel cf.w).1.prog = .ret v := by
           cases hq' : (t.step fuel cf.w).1.prog with
@@ -376,7 +577,7 @@ theorem sinv_step {cf : Conf} {done : List Nat} {cur : Option Nat} (h : SInv c i
           rw [hsnoc]; exact hw
         · intro a ha; cases ha
     · -- a thread that has not passed its acquire
-      obtain ⟨hprog, k, hk, hfin⟩ := h.wait j t p hd hc hj hp
+      obtain ⟨hprog, k, hk, hfin, hdisc⟩ := h.wait j t p hd hc hj hp
       subst hk
       cases t with
       | finished r => cases hprog
@@ -392,13 +593,14 @@ theorem sinv_step {cf : Conf} {done : List Nat} {cur : Option Nat} (h : SInv c i
           by_cases e : j' = j
           · subst e; rw [hset_self] at ht'; cases ht'
             rw [hp] at hp'; cases hp'
-            exact ⟨h1, k, rfl, hfin⟩
+            exact ⟨h1, k, rfl, hfin, hdisc⟩
           · rw [hset_ne j' e] at ht'; exact h.wait j' t' p' hj' hc' ht' hp'
         · intro hn; simp only [h2]; exact h.curNone hn
         · intro a ha
-          obtain ⟨h3, h4, t', p', h5, h6, h7, h8⟩ := h.curSome a ha
+          obtain ⟨h3, h4, t', p', hl, h5, h6, h7, h7d, h7h, h7n, h8⟩ := h.curSome a ha
           have e : a ≠ j := fun e => hc (by rw [ha, e])
-          exact ⟨h3, by simp only [h2]; exact h4, t', p', by rw [hset_ne a e]; exact h5, h6, h7, by simp only [h2]; exact h8⟩
+          exact ⟨h3, by simp only [h2]; exact h4, t', p', hl, by rw [hset_ne a e]; exact h5, h6, h7, h7d,
+            by simp only [h2]; exact h7h, h7n, by simp only [h2]; exact h8⟩
       | «at» e k' =>
         have he : e = .acquire c i ∧ k' = k := by
           simp only [TState.prog, Prog.op.injEq] at hprog; exact ⟨hprog.1, hprog.2⟩
@@ -412,7 +614,7 @@ theorem sinv_step {cf : Conf} {done : List Nat} {cur : Option Nat} (h : SInv c i
           | none => rfl
           | some a => obtain ⟨_, h4, _⟩ := h.curSome a hcur; rw [hfree] at h4; cases h4
         obtain ⟨_, hw⟩ := h.curNone hcur
-        obtain ⟨hf, hc1⟩ := at_acquire_step fuel k' cf.w hfin hfree
+        obtain ⟨hf, hfd, hfh, hc1⟩ := at_acquire_step fuel k' cf.w hfin hdisc hfree
         have hrun := step_prog_run fuel (TState.at (.acquire c i) k') cf.w
         refine ⟨done, some j, ⟨by simpa using h.len, h.nodup, h.dlt, ?_, ?_, ?_, ?_⟩⟩
         · intro j' hj' t' ht'
@@ -425,18 +627,19 @@ theorem sinv_step {cf : Conf} {done : List Nat} {cur : Option Nat} (h : SInv c i
         · intro hn; cases hn
         · intro a ha
           cases ha
-          exact ⟨hd, hc1, _, _, hset_self, hp, hf, by rw [hrun, hw]; rfl⟩
+          exact ⟨hd, hc1, _, _, [⟨c, i⟩], hset_self, hp, hf, hfd, hfh, by simp, by rw [hrun, hw]; rfl⟩
 
 end
 
 /-! ### every schedule -/
 
 section
-variable (c : LockClass) (i : Str) (progs : List (Prog (Except Exc Val))) (w0 : World)
+variable (c : LockClass) (i : Str) (post : List Lock → Except Exc Val → Prop)
+  (progs : List (Prog (Except Exc Val))) (w0 : World)
 
 theorem sinv_schedule (fuel : Nat) (sched : List Nat) (cf : Conf) (n : Nat) (done : List Nat) (cur : Option Nat)
-    (h : SInv c i progs w0 cf done cur) :
-    ∃ done' cur', SInv c i progs w0 (runSchedule fuel cf sched n).1 done' cur' := by
+    (h : SInv c i post progs w0 cf done cur) :
+    ∃ done' cur', SInv c i post progs w0 (runSchedule fuel cf sched n).1 done' cur' := by
   induction sched generalizing cf n done cur with
   | nil => exact ⟨done, cur, h⟩
   | cons j rest ih =>
@@ -447,7 +650,7 @@ theorem sinv_schedule (fuel : Nat) (sched : List Nat) (cf : Conf) (n : Nat) (don
       simp only
       by_cases hen : t.enabled cf.w = true
       · rw [if_pos hen]
-        obtain ⟨d', c', h'⟩ := sinv_step c i progs w0 h fuel j t hj hen
+        obtain ⟨d', c', h'⟩ := sinv_step c i post progs w0 h fuel j t hj hen
         exact ih _ _ d' c' h'
       · rw [if_neg hen]; exact ⟨done, cur, h⟩
 
@@ -501,8 +704,8 @@ def isRet : Prog (Except Exc Val) → Bool
 /-- threads with nothing to do from the start (calls rejected for their arguments) -/
 def done0 : List Nat := (List.range progs.length).filter fun j => match progs[j]? with | some p => isRet p | none => false
 
-theorem sinv_initial (hb : ∀ p ∈ progs, p.Bracketed c i) (h0 : w0.cnt c i = 0) :
-    SInv c i progs w0 { w := w0, ts := progs.map .fresh } (done0 progs) none := by
+theorem sinv_initial (hb : ∀ p ∈ progs, p.BracketedU c i ∧ p.Disc post []) (h0 : w0.cnt c i = 0) :
+    SInv c i post progs w0 { w := w0, ts := progs.map .fresh } (done0 progs) none := by
   have hquiet : ∀ j ∈ done0 progs, ∀ p, progs[j]? = some p → p.Quiet := by
     intro j hj p hp
     simp only [done0, List.mem_filter, hp] at hj
@@ -542,9 +745,10 @@ theorem sinv_initial (hb : ∀ p ∈ progs, p.Bracketed c i) (h0 : w0.cnt c i = 
       simp only [done0, List.mem_filter, List.mem_range, hp, isRet, and_true]
       exact hjlt
     | op e k =>
-      obtain ⟨he, hk⟩ := hbp
+      obtain ⟨⟨he, hk⟩, hdisc⟩ := hbp
       subst he
-      exact ⟨rfl, k, rfl, hk⟩
+      simp only [Prog.Disc, List.nil_append] at hdisc
+      exact ⟨rfl, k, rfl, hk, hdisc.2⟩
   · intro _; exact ⟨h0, hw.symm⟩
   · intro a ha; cases ha
 
@@ -556,14 +760,15 @@ theorem sinv_initial (hb : ∀ p ∈ progs, p.Bracketed c i) (h0 : w0.cnt c i = 
     that the world is exactly the one reached by running the programs whole, one
     after the other, in that order — store, lock lists, fault plan and effect
     log — and every thread's result is its result in that sequential run. -/
-theorem serial_schedule (hb : ∀ p ∈ progs, p.Bracketed c i) (h0 : w0.cnt c i = 0) (fuel : Nat) (sched : List Nat) :
+theorem serial_schedule (hb : ∀ p ∈ progs, p.BracketedU c i ∧ p.Disc post []) (h0 : w0.cnt c i = 0) (fuel : Nat)
+    (sched : List Nat) :
     let fin := (runSchedule fuel { w := w0, ts := progs.map .fresh } sched 0).1
     fin.allFinished = true →
     ∃ order : List Nat, order.Nodup ∧ (∀ j, j ∈ order ↔ j < progs.length) ∧
       fin.w = (seqRun progs order w0).1 ∧
       ∀ (j : Nat) (t : TState), fin.ts[j]? = some t → ∃ v, t = TState.finished v ∧ (j, v) ∈ (seqRun progs order w0).2 := by
   intro fin hall
-  obtain ⟨done, cur, h⟩ := sinv_schedule c i progs w0 fuel sched _ 0 _ _ (sinv_initial c i progs w0 hb h0)
+  obtain ⟨done, cur, h⟩ := sinv_schedule c i post progs w0 fuel sched _ 0 _ _ (sinv_initial c i post progs w0 hb h0)
   have hfin : ∀ (j : Nat) (t : TState), fin.ts[j]? = some t → ∃ v, t = TState.finished v := by
     intro j t ht
     have := List.all_eq_true.mp hall t (List.mem_of_getElem? ht)
@@ -575,7 +780,7 @@ theorem serial_schedule (hb : ∀ p ∈ progs, p.Bracketed c i) (h0 : w0.cnt c i
     cases hc : cur with
     | none => rfl
     | some a =>
-      obtain ⟨_, _, t, p, ht, _, hf, _⟩ := h.curSome a hc
+      obtain ⟨_, _, t, p, _, ht, _, hf, _⟩ := h.curSome a hc
       obtain ⟨v, rfl⟩ := hfin a t ht
       exact hf.elim
   have hlen : fin.ts.length = progs.length := h.len
@@ -808,6 +1013,91 @@ theorem deletesPid_bracketed (p : Str) (call : Call) (h : DeletesPid p call) :
       have := h q hp
       subst this
       exact deleteObject_bracketed cfg o pid q hp
+  | _ => exact h.elim
+
+end
+
+/-! ### tag_object: bracketed by its pid in the reference-pid class (read with the lock discipline) -/
+
+section
+variable (cfg : Config) (o : Oracle)
+
+theorem Prog.bracketedU_bind_quiet {α β : Type} {c : LockClass} {i : Str} (m : Prog α) (f : α → Prog β)
+    (hm : m.BracketedU c i) (hf : ∀ a, (f a).Quiet) : (Prog.bind m f).BracketedU c i := by
+  cases m with
+  | ret a =>
+    show (f a).BracketedU c i
+    have := hf a
+    cases hfa : f a with
+    | ret b => trivial
+    | op e k => rw [hfa] at this; exact this.elim
+  | op e k => exact ⟨hm.1, Prog.finU_bind_quiet _ _ hm.2 hf⟩
+
+theorem storeRefs_bracketedU (pid cid : Str) :
+    Prog.BracketedU .refPid pid (storeRefs cfg o pid cid : Prog (Except Exc Unit)) := by
+  unfold storeRefs PE.withFinally
+  refine ⟨rfl, ?_⟩
+  apply Prog.finU_bind_avoid
+  · apply Prog.allEv_mono _ (fun e (he : NotCls .refPid e) => avoid_of_notCls pid he)
+    show PE.AllEv (NotCls .refPid) (acquire .cid cid >>= fun _ => _)
+    apply PE.allEv_bind
+    · apply allEv_acquire; show LockClass.cid ≠ LockClass.refPid; decide
+    intro _
+    apply Prog.allEv_mono _ (fun e (he : NotLock e) => (by cases e <;> first | trivial | exact he.elim : NotCls .refPid e))
+    apply PE.allEv_tryCatch
+    · repeat (first
+        | exact verifyRefs_nl o _ _
+        | exact updateRefsAdd_nl _ _
+        | exact writeRefsTmp_nl
+        | allev_step)
+    · intro e
+      split
+      · exact PE.allEv_throw _
+      · exact PE.allEv_throw _
+      · apply PE.allEv_bind
+        · exact untagObject_nl cfg o _ _
+        · intro _; exact PE.allEv_throw _
+  · intro r
+    show Prog.FinU _ _ (Prog.bind (PE.bind' (release .cid cid) fun _ => release .refPid pid) _)
+    unfold PE.bind' release unitPrim PE.prim
+    simp only [Prog.bind, Prog.FinU]
+    refine Or.inr ⟨(by intro h; cases h), Or.inl ⟨trivial, ?_⟩⟩
+    trivial
+
+/-- `tag_object(pid, cid)`: rejected at once, or bracketed by the pid in the reference-pid class -/
+theorem tagObject_bracketedU (pid cid : SArg) (p : Str) (hp : checkString pid = .ok p) :
+    Prog.BracketedU .refPid p (tagObject cfg o pid cid : Prog (Except Exc Val)) := by
+  unfold tagObject
+  rw [hp, PE.ofExcept_ok_bind]
+  cases hc : checkString cid with
+  | error e => trivial
+  | ok c =>
+    rw [PE.ofExcept_ok_bind]
+    apply Prog.bracketedU_bind_quiet
+    · exact storeRefs_bracketedU cfg o p c
+    · intro a; cases a <;> trivial
+
+end
+
+section
+variable (cfg : Config) (o : Oracle)
+
+/-- a `tag_object` call on pid `p` (or one rejected for its arguments) -/
+def TagsPid (p : Str) : Call → Prop
+  | .tagObject pid _ => ∀ q, checkString pid = .ok q → q = p
+  | _ => False
+
+theorem tagsPid_bracketedU (p : Str) (call : Call) (h : TagsPid p call) :
+    Prog.BracketedU .refPid p (call.prog cfg o : Prog (Except Exc Val)) := by
+  cases call with
+  | tagObject pid cid =>
+    simp only [Call.prog]
+    cases hp : checkString pid with
+    | error e => unfold tagObject; rw [hp]; trivial
+    | ok q =>
+      have := h q hp
+      subst this
+      exact tagObject_bracketedU cfg o pid cid q hp
   | _ => exact h.elim
 
 end
